@@ -320,6 +320,40 @@ def _run_impl(d):
     return r, o
 
 
+def _measure_child(a):
+    modname, sample, repo, limit, budget = a
+    _init_worker(modname, repo)
+    import anchors
+    return anchors.measure(_mod, sample, repo, _mod.impl, limit=limit, budget_s=budget)
+
+
+def anchored_coverage(modname, descs, tier):
+    """executed/executable lines of the anchored functions over a sample of this run's cases (bookkeeping only)"""
+    try:
+        limit, budget = (600, 15.0) if tier == "quick" else (4000, 120.0)
+        if os.environ.get("VERIF_ANCH_ALL"):
+            limit, budget = len(descs) + 1, 3600.0
+        r = random.Random(7)
+        if len(descs) <= limit:
+            sample = list(descs)
+        else:  # stratified by case kind so that rare kinds are not sampled away
+            groups = {}
+            for d in descs:
+                groups.setdefault(d.get("k", "?"), []).append(d)
+            share = max(1, limit // len(groups))
+            sample = []
+            for g in groups.values():
+                sample += g if len(g) <= share else r.sample(g, share)
+        r.shuffle(sample)
+        ctx = multiprocessing.get_context("fork")
+        with ctx.Pool(1) as pool:
+            return pool.apply(_measure_child, ((modname, sample, REPO, limit, budget),))
+    except BaseException as e:
+        if isinstance(e, (KeyboardInterrupt, SystemExit)):
+            raise
+        return {"error": "%s: %s" % (type(e).__name__, str(e)[:200])}
+
+
 def run_impl(modname, descs, procs=14):
     if len(descs) < 50 or procs <= 1:
         _init_worker(modname, REPO)
@@ -381,6 +415,29 @@ def check(modname, argv):
         if extra:
             problems.append("theorem %s depends on non-whitelisted assumptions: %s" % (th, extra))
 
+    # thorough tier: independent re-check of the compiled cone with coqchk, and its axiom list
+    coqchk = None
+    if tier == "thorough" and not args.replay and not problems:
+        t1 = time.time()
+        try:
+            rc, out = run("timeout 2400 coqchk -silent -o -Q . BU BU.Properties.%s" % pid, cwd=COQ, timeout=2500)
+        except subprocess.TimeoutExpired:
+            rc, out = 124, ""
+        ax = []
+        if "* Axioms:" in out:
+            for line in out.split("* Axioms:")[1].split("* Constants")[0].splitlines():
+                if line.strip() and line.strip() != "<none>":
+                    ax.append(line.strip())
+        coqchk = {"exit": rc, "seconds": round(time.time() - t1, 1), "axioms": ax,
+                  "flags": [l.strip() for l in out.splitlines() if "relying on" in l or "assumed" in l]}
+        if rc == 124:
+            coqchk["note"] = "coqchk did not finish within its time limit (kernel-computed sweeps are slow in the checker); not a verdict"
+        elif rc != 0:
+            problems.append("coqchk rejects the compiled development: " + out[-400:])
+        else:
+            bad = [a for a in ax if not any(a.endswith(w) for w in AXIOM_WHITELIST)]
+            if bad:
+                problems.append("coqchk reports non-whitelisted axioms: %s" % bad)
     # correspondence
     rng = random.Random(seed)
     if args.replay:
@@ -406,6 +463,7 @@ def check(modname, argv):
     if args.replay:
         src_changed = []
     impl_out = run_impl(modname, descs)
+    anch = None if args.replay else anchored_coverage(modname, descs, tier)
     mq, sq, idx = [], [], []
     for i, d in enumerate(descs):
         m = mod.model(d)
@@ -492,6 +550,8 @@ def check(modname, argv):
             "samples": samples(descs, impl_out, model_out, spec_out, rng),
             "input_distribution": kinds,
             "corpus_replayed": corpus_n,
+            "coqchk": coqchk,
+            "anchored_code_executed": anch,
             "anchored_files_changed_since_baseline": src_changed,
             "model_vs_impl_disagreements_in_domain": len(viol),
             "out_of_domain_differences_logged": len(infos),
@@ -551,7 +611,7 @@ def trusted_base(mod, axioms):
         "Coq 8.16.1 kernel (coqc, full .vo builds); vm_compute used in reflective table lemmas; no native_compute",
         "axioms per theorem (Print Assumptions): " + json.dumps({k: (v or "closed") for k, v in axioms.items()}),
         "table generator harness/gen_tables.py (runtime values of the library -> coq/Gen/Tables.v)",
-        "extraction: ExtrOcamlBasic, ExtrOcamlZBigInt, ExtrOcamlNatBigInt, ExtrOcamlString (standard-library directives only); zarith 1.12; ocaml/driver.ml",
+        "extraction: ExtrOcamlBasic, ExtrOcamlZBigInt, ExtrOcamlNatBigInt, ExtrOcamlString (standard-library directives) plus three of our own: Extract Constant Z.land/Z.lor/Z.lxor => Zx.logand/logor/logxor (ocaml/zx.ml, zarith bit operations on non-negative and negative Z); zarith 1.12; ocaml/driver.ml",
         "correspondence harness (harness/engine.py, generators and canonicalisation in harness/props), CPython 3.12",
         "hand-written model coq/Model/*.v tied to the code only by the correspondence run of this check",
     ]
